@@ -3,6 +3,7 @@ directory-restore goroutines under CAS read faults (spec/DirLoad.tla exhaustive;
 every fault subset inside a synctest bubble: it must return an error or an exact tree, never hang)."""
 import json, os
 from vlib import core, walker_engine
+from vlib.checks import _hist
 
 def dirload(chk, tmp):
     quick = chk.tier == "quick"
@@ -34,3 +35,7 @@ def dirload(chk, tmp):
 def run(chk, tmp, replay=None):
     walker_engine.run(chk, tmp, "C04")
     dirload(chk, tmp)
+    others = dict(chk.cov.get("anomalies_attributed_to_other_properties", {}))
+    _hist.run(chk, tmp, "C04")      # cache-fault histories through the CLI: a build that does not return or crashes
+    others.update(chk.cov.get("anomalies_attributed_to_other_properties", {}))
+    chk.cov["anomalies_attributed_to_other_properties"] = others
